@@ -281,7 +281,7 @@ func (r *lcRun) run(b Behaviour, idx int) {
 	// (as if its provider had left): the load waits for it, and the close must end that wait
 	var gone cid.Cid
 	var goneData []byte
-	if l > 1 && idx%2 == 0 {
+	if l == 3 || (l == 2 && idx%2 == 0) {
 		if p := r.parkedAt("load.head.begin", 0, 100*time.Millisecond); p != nil && len(p.Args) > 1 {
 			if he, ok := p.Args[1].(ipfslog.Entry); ok && he != nil {
 				for _, peer := range []*sim.Peer{r.inst.P, r.rem.P} {
@@ -419,7 +419,11 @@ func (r *lcRun) run(b Behaviour, idx int) {
 	// the database is opened again on the same instance, then the closed handle is dropped: Drop removes the local data
 	// of that database, returns, and leaves the instance usable
 	dropped := kind == "drop"
-	if (kind == "store" || kind == "store-twice") && idx%2 == 1 {
+	wantsDrop := idx%2 == 1
+	for _, p := range asList(last["posts"]) {
+		wantsDrop = wantsDrop || asStr(p) == "reopen-and-drop"
+	}
+	if (kind == "store" || kind == "store-twice") && wantsDrop {
 		dropped = true
 		r.res.Comparisons++
 		r.res.Stats["drop_of_closed_handle_after_reopen"]++
